@@ -64,6 +64,69 @@ func (e *Engine) FindFunc(pkgPath, short string) *ssa.Function {
 	return found
 }
 
+// FuncsInFiles lists the functions (methods and closures included) declared in the given files.
+func (e *Engine) FuncsInFiles(files []string) []*ssa.Function {
+	var out []*ssa.Function
+	seen := map[*ssa.Function]bool{}
+	match := func(fn *ssa.Function) bool {
+		if fn.Synthetic != "" || len(fn.Blocks) == 0 {
+			return false
+		}
+		name := e.prog.Fset.Position(fn.Pos()).Filename
+		for _, f := range files {
+			if strings.HasSuffix(name, "/"+f) {
+				return true
+			}
+		}
+		return false
+	}
+	var visit func(fn *ssa.Function)
+	visit = func(fn *ssa.Function) {
+		if fn == nil || seen[fn] {
+			return
+		}
+		seen[fn] = true
+		if match(fn) {
+			out = append(out, fn)
+		}
+		for _, a := range fn.AnonFuncs {
+			visit(a)
+		}
+	}
+	var paths []string
+	for p := range e.ssaPkgs {
+		if strings.HasPrefix(p, repoPrefix) {
+			paths = append(paths, p)
+		}
+	}
+	sort.Strings(paths)
+	for _, p := range paths {
+		sp := e.ssaPkgs[p]
+		var names []string
+		for n := range sp.Members {
+			names = append(names, n)
+		}
+		sort.Strings(names)
+		for _, n := range names {
+			switch x := sp.Members[n].(type) {
+			case *ssa.Function:
+				visit(x)
+			case *ssa.Type:
+				for _, t := range []types.Type{x.Type(), types.NewPointer(x.Type())} {
+					ms := e.prog.MethodSets.MethodSet(t)
+					for i := 0; i < ms.Len(); i++ {
+						if fn := e.prog.MethodValue(ms.At(i)); fn != nil && fn.Pkg == sp {
+							visit(fn)
+						}
+					}
+				}
+			}
+		}
+	}
+	sort.Slice(out, func(i, j int) bool { return funcDisplayName(out[i]) < funcDisplayName(out[j]) })
+	return out
+}
+
 func (e *Engine) NewRun(fn *ssa.Function) *FuncRun {
 	return &FuncRun{eng: e, w: NewWorld(), fn: fn, names: map[string]int{}, assumed: map[string]bool{}, allWrites: newWriteSet(), allocTop: "AllocBase", stats: map[string]int{},
 		freshHeapWrites: map[string]bool{}, oldHeapWrites: map[string]bool{}, freshRefs: map[string]bool{}, ordCache: map[*ssa.Function]map[*ssa.CallCommon]int{}}
@@ -678,6 +741,21 @@ func (e *Engine) VerifyFunction(fn *ssa.Function) *FuncResult {
 	// preconditions
 	ctx := &EvalCtx{fr: fr, f: f, st: st, old: f.entry, pkg: e.pkgOf(fn), binds: fr.paramBinds(fn, f.params)}
 	var reqs []string
+	if recv := fn.Signature.Recv(); recv != nil && len(fn.Params) > 0 {
+		if pt, ok := recv.Type().Underlying().(*types.Pointer); ok {
+			if named := namedOf(pt.Elem()); named != nil {
+				if tc := e.contracts.lookupType(named); tc != nil && len(tc.Valid) > 0 {
+					fr.assume(st, not(eq(f.params[0].T, "0")))
+					for _, vc := range tc.Valid {
+						self := TVal{Val: f.params[0], Type: recv.Type()}
+						vctx := &EvalCtx{fr: fr, st: st, old: nil, pkg: e.pkgByPath[tc.Pkg], binds: map[string]TVal{"self": self, "s": self}}
+						fr.assume(st, fr.evalClause(vctx, vc))
+					}
+					fr.assumed["receiver validity of "+trimPath(tc.Pkg)+"."+tc.Name+" (established by its constructor)"] = true
+				}
+			}
+		}
+	}
 	for _, r := range f.contract.Requires {
 		t := fr.evalClause(ctx, r)
 		reqs = append(reqs, t)
